@@ -51,6 +51,11 @@ class If(Node):
         self.cond, self.a, self.b = cond, a, b
 
 
+# names (as bound in the module under comparison) of generator functions every path of which yields before it finishes;
+# set by the loader (sa/alpha.py nonempty_generators) after checking the definitions in the current tree
+NONEMPTY = frozenset()
+
+
 class Region(Node):
     """Loop or Try."""
 
@@ -1061,6 +1066,12 @@ class Exec(object):
             r.head = ('while',)
             r.assigned = _stored_names(s.body + s.orelse)
         r.init = dict((v, st.env.get(v, ('unbound',))) for v in r.assigned)
+        if isinstance(s, ast.For) and isinstance(s.iter, ast.Call) and isinstance(s.iter.func, ast.Name) and s.iter.func.id in NONEMPTY:
+            # the iterator yields at least once before it finishes (checked on the current tree by the loader): the loop
+            # target is bound by the loop whatever it held before
+            for t in ast.walk(s.target):
+                if isinstance(t, ast.Name):
+                    r.init[t.id] = ('unbound',)
         inner = st.copy()
         inner.hist = [(('ver', r, 'in'), None)]
         for v in r.assigned:
